@@ -1,10 +1,12 @@
 --------------------------------- MODULE CRSText ---------------------------------
 (* C20 - a CRS means the same whether written as PROJ.4 or as OGC WKT.             *)
-(* An abstract CRS is [proj, unit, tw, style, ord]: projection, linear unit          *)
+(* An abstract CRS is [proj, unit, tw, style, ord, upos]: projection, linear unit    *)
 (* ("m" | "ft" | "us-ft"), number of TOWGS84 terms (0 | 3 | 7), parameter naming      *)
 (* style of the WKT ("esri": central_meridian / latitude_of_origin everywhere;       *)
 (* "ogc": longitude_of_center / latitude_of_center for the conic equal-area and      *)
-(* equidistant projections) and the order of the PARAMETER clauses.                  *)
+(* equidistant projections), the order of the PARAMETER clauses and the position    *)
+(* of the linear UNIT clause ("last": after the parameters, as ESRI writes it;       *)
+(* "first": directly after the GEOGCS, as GDAL / EPSG write it).                     *)
 (* Numbers are *names* here ("LAT1", "X0U", ...): the harness holds a value for      *)
 (* each name and projection; the specification fixes which name appears in which     *)
 (* clause of which text and in which unit.                                           *)
@@ -17,7 +19,7 @@
 (*     false origin by the declared linear unit.                                     *)
 EXTENDS Integers, Sequences, FiniteSets, TLC
 
-CONSTANTS Styles, Orders,
+CONSTANTS Styles, Orders, UPos,
           LongCFixup      \* TRUE: wkt() copies LongC to Long0 when no central meridian was given (the repair); FALSE: before it
 
 Projs == {"longlat", "merc", "lcc", "aea", "eqdc", "tmerc"}
@@ -63,9 +65,12 @@ GeogCS(c) == Sec("GEOGCS", <<Q("GCS_verif"),
                  Sec("PRIMEM", <<Q("Greenwich"), V("ZERO")>>),
                  Sec("UNIT", <<Q("Degree"), V("DEG")>>)>>)
 WKT(c) == IF c.proj = "longlat" THEN GeogCS(c)
-          ELSE Sec("PROJCS", <<Q("verif_projcs"), GeogCS(c), Sec("PROJECTION", <<Q(WKTProjName(c.proj))>>)>>
-                              \o Reorder(Params(c), c.ord)
-                              \o <<Sec("UNIT", <<Q(UnitName(c.unit)), V(UnitFactor(c.unit))>>)>>)
+          ELSE LET unit == <<Sec("UNIT", <<Q(UnitName(c.unit)), V(UnitFactor(c.unit))>>)>>
+               IN Sec("PROJCS", <<Q("verif_projcs"), GeogCS(c)>>
+                                \o (IF c.upos = "first" THEN unit ELSE <<>>)
+                                \o <<Sec("PROJECTION", <<Q(WKTProjName(c.proj))>>)>>
+                                \o Reorder(Params(c), c.ord)
+                                \o (IF c.upos = "last" THEN unit ELSE <<>>))
 
 (* ------------------------------------------------------------------ R2: symbolic parsers *)
 (* a field term: [f |-> "deg" | "raw" | "scaled" | "nan", v |-> value name] *)
@@ -167,10 +172,10 @@ FieldsAgree(c) == LET a == P4Assign(P4(c))
                      /\ \A f \in Used(c.proj) : Norm(a[f]) = Norm(b[f])
                      /\ (c.unit = "m" \/ c.proj = "longlat" \/ (b.X0.f = "scaled" /\ b.Y0.f = "scaled"))
 
-Universe == {[proj |-> p, unit |-> u, tw |-> t, style |-> s, ord |-> o] :
-               p \in Projs, u \in Units, t \in {0, 3, 7}, s \in Styles, o \in Orders}
+Universe == {[proj |-> p, unit |-> u, tw |-> t, style |-> s, ord |-> o, upos |-> up] :
+               p \in Projs, u \in Units, t \in {0, 3, 7}, s \in Styles, o \in Orders, up \in UPos}
 VARIABLE crs
-Init == crs \in {c \in Universe : c.proj # "longlat" \/ (c.unit = "m" /\ c.ord = 1 /\ c.style = "esri")}
+Init == crs \in {c \in Universe : c.proj # "longlat" \/ (c.unit = "m" /\ c.ord = 1 /\ c.style = "esri" /\ c.upos = "last")}
 Spec == Init /\ [][UNCHANGED crs]_crs
 ClauseMappingOK == FieldsAgree(crs)
 =============================================================================
